@@ -184,6 +184,12 @@ TConv == /\ Ev.e = "Conv"
             /\ {i \in D : NeverIncreases(v[i + 1], flo[i + 1]) # (v[i + 1] < flo[i + 1] + 1)} = {}
             /\ Report("exp-inexact", {i \in D : ~ExpExact(v[i + 1], elo[i + 1], ehi[i + 1])})
 
+\* probability 0 -> log-zero -> back: the round trip must not increase it (exp of log-zero is 0)
+TZeroConv == /\ Ev.e = "ZeroConv"
+             /\ UNCHANGED <<hl, tl, pl>>
+             /\ Flag("roundtrip-increases:p=0", Ev.back_is_zero /\ Ev.expzero_is_zero)
+             /\ Flag("log-of-zero-is-log-zero", Ev.v = Ev.zero)
+
 \* diagnostic: logmath_add_exact(x, x-d) = ex, logmath_add(x, x-d) = a; slo/shi = floor/ceiling of the exact sum
 TExact == /\ Ev.e = "Exact"
           /\ UNCHANGED <<hl, tl, pl>>
@@ -199,7 +205,7 @@ TExact == /\ Ev.e = "Exact"
              /\ Report("diag-add-vs-exact", {i \in D : Abs(a[i + 1] - ex[i + 1]) > 1})
 
 TNext == /\ l <= Len(JTrace)
-         /\ (THeader \/ TTable \/ TRow \/ TIdent \/ TPairs \/ TConv \/ TExact)
+         /\ (THeader \/ TTable \/ TRow \/ TIdent \/ TPairs \/ TConv \/ TZeroConv \/ TExact)
          /\ l' = l + 1
          /\ TLCSet(1, l)
 
